@@ -33,6 +33,7 @@
 From Coq Require Import List NArith ZArith Bool.
 Import ListNotations.
 Require Import Parser SBase SPrim SDir SScalar SFetch Pipe FlowFold FlowScalarProofs PlainScalarProofs QuotedFoldProofs FoldPhysicalProofs.
+Require Import Drivers FlowText ScalarContextQuoted ScalarContextFlow.
 Open Scope N_scope.
 
 Definition C04_full : Prop := C04_quoted_full /\ C04_plain_full.
@@ -328,3 +329,107 @@ Example C04_crlf_instances :
   /\ match scan_flow_scalar str_ops 100 false s2 with
      | Ok ((_, TScalar DoubleQuoted v), _) => v = [97; 10; 10; 98; 10; 99; 32] | _ => False end.
 Proof. vm_compute. repeat split. Qed.
+
+(* ---- T7: quoted scalars in DOCUMENT context, text -> tokens -> events (Proofs/ScalarContext*.v) --------------------- *)
+(* T5 for a follower of spaces and line feeds WITH the input that is left (the blanks behind the closing quote are consumed,
+   the line feeds are left to skip_to_next_token): T5 itself hides the final scanner state. *)
+Theorem C04_quoted_ws_partial :
+  forall (F : nat) (single : bool) (n : nat) (first : list dq_item) (more : list (brk_layout * list dq_item))
+         (rest : list N) (s : sc strin),
+    (if single then sq_layout_wf n first more else dq_layout_wf n first more) = true ->
+    let src := if single then sq_render first more else dq_render first more in
+    si_chars (sc_in s) = quote_of single :: src ++ quote_of single :: rest ->
+    ws_only rest = true ->
+    (sc_indent s < Z.of_nat n)%Z ->
+    (sc_indent s <= Z.of_N (m_col (sc_mark s)) + 1)%Z ->
+    (2 * length (si_chars (sc_in s)) + 10 <= F)%nat ->
+    exists sp s',
+      scan_flow_scalar str_ops F single s = Ok ((sp, TScalar (style_of single) (dq_text first more)), s')
+      /\ sp_start sp = sc_mark s /\ si_chars (sc_in s') = drop_leading rest.
+Proof. exact scan_flow_scalar_ws. Qed.
+Print Assumptions C04_quoted_ws_partial.
+
+(* For EVERY presentation (first segment, (break layout, segment) list) of a single- or double-quoted scalar that
+   sq_layout_wf n / dq_layout_wf n allow -- escapes, folded and escaped breaks, empty lines, LF / CR / CR LF inside the
+   scalar -- followed by spaces and line feeds only ([ws_only rest]: the scalar ends the input), the whole model pipeline on
+   the text  quote, rendering, quote, rest  (q_text), alone / behind "key: " / behind "- ", delivers the scalar event with
+   exactly dq_text in the written style.  n is the least indentation of the continuation lines: any n at top level, n >= 1 as
+   a sequence entry, n >= 2 as a mapping value (T5 compares n with the scanner's indentation, which roll_one_col_indent has
+   raised to 1 behind "key:"; a value continued at column 1 is accepted by the scanner but not covered by T5). *)
+Theorem C04_quoted_document_top : forall (single : bool) (n : nat) first more rest,
+  (if single then sq_layout_wf n first more else dq_layout_wf n first more) = true -> ws_only rest = true ->
+  map fst (fst (run_str (q_text single first more rest)))
+  = [EStreamStart; EDocumentStart false; EScalar (dq_text first more) (style_of single) 0 None; EDocumentEnd; EStreamEnd]
+  /\ snd (run_str (q_text single first more rest)) = PDone.
+Proof. exact run_quoted_top. Qed.
+Print Assumptions C04_quoted_document_top.
+
+Theorem C04_quoted_document_value : forall kw (single : bool) (n : nat) first more rest,
+  key_ok kw = true -> (if single then sq_layout_wf n first more else dq_layout_wf n first more) = true -> ws_only rest = true ->
+  (2 <= n)%nat ->
+  map fst (fst (run_str (kw ++ 58 :: 32 :: q_text single first more rest)))
+  = [EStreamStart; EDocumentStart false; EMappingStart 0 None; EScalar kw Plain 0 None;
+     EScalar (dq_text first more) (style_of single) 0 None; EMappingEnd; EDocumentEnd; EStreamEnd]
+  /\ snd (run_str (kw ++ 58 :: 32 :: q_text single first more rest)) = PDone.
+Proof. exact run_quoted_value. Qed.
+Print Assumptions C04_quoted_document_value.
+
+Theorem C04_quoted_document_entry : forall (single : bool) (n : nat) first more rest,
+  (if single then sq_layout_wf n first more else dq_layout_wf n first more) = true -> ws_only rest = true -> (1 <= n)%nat ->
+  map fst (fst (run_str (45 :: 32 :: q_text single first more rest)))
+  = [EStreamStart; EDocumentStart false; ESequenceStart 0 None; EScalar (dq_text first more) (style_of single) 0 None; ESequenceEnd;
+     EDocumentEnd; EStreamEnd]
+  /\ snd (run_str (45 :: 32 :: q_text single first more rest)) = PDone.
+Proof. exact run_quoted_entry. Qed.
+Print Assumptions C04_quoted_document_entry.
+
+(* the text is what the specification renders *)
+Example C04_q_text_is_render : forall (single : bool) first more rest,
+  q_text single first more rest
+  = quote_of single :: (if single then sq_render first more else dq_render first more) ++ quote_of single :: rest.
+Proof. reflexivity. Qed.
+
+(* instances, every hypothesis evaluated.  Double-quoted over three lines: a folded break with an empty line behind trailing
+   padding, an escaped break, a named and a hexadecimal escape; followed by a blank and a line feed.
+   "a \t <LF><LF>  <TAB>b \<LF> \x41" <LF> *)
+Definition ctx_b : brk_layout := {| bl_escaped := false; bl_pad := [32]; bl_empties := [[]]; bl_indent := [32; 32; 9]; bl_nl := NlLF |}.
+Definition ctx_e : brk_layout := {| bl_escaped := true; bl_pad := []; bl_empties := []; bl_indent := [32; 32]; bl_nl := NlLF |}.
+Definition ctx_first : list dq_item := [ILit 97; ILit 32; INamed 116 9].
+Definition ctx_more : list (brk_layout * list dq_item) := [(ctx_b, [ILit 98; ILit 32]); (ctx_e, [IHex 120 [52; 49] 65])].
+Example C04_quoted_document_instances :
+  dq_layout_wf 2 ctx_first ctx_more = true /\ dq_text ctx_first ctx_more = [97; 32; 9; 10; 98; 32; 65] /\
+  q_text false ctx_first ctx_more [32; 10]
+  = [34; 97; 32; 92; 116; 32; 10; 10; 32; 32; 9; 98; 32; 92; 10; 32; 32; 92; 120; 52; 49; 34; 32; 10] /\
+  (* top level *)
+  map fst (fst (run_str (q_text false ctx_first ctx_more [32; 10])))
+  = [EStreamStart; EDocumentStart false; EScalar [97; 32; 9; 10; 98; 32; 65] DoubleQuoted 0 None; EDocumentEnd; EStreamEnd] /\
+  (* mapping value: "key: " in front, the same text *)
+  map fst (fst (run_str ([107; 101; 121] ++ 58 :: 32 :: q_text false ctx_first ctx_more [32; 10])))
+  = [EStreamStart; EDocumentStart false; EMappingStart 0 None; EScalar [107; 101; 121] Plain 0 None;
+     EScalar [97; 32; 9; 10; 98; 32; 65] DoubleQuoted 0 None; EMappingEnd; EDocumentEnd; EStreamEnd] /\
+  (* sequence entry *)
+  map fst (fst (run_str (45 :: 32 :: q_text false ctx_first ctx_more [32; 10])))
+  = [EStreamStart; EDocumentStart false; ESequenceStart 0 None; EScalar [97; 32; 9; 10; 98; 32; 65] DoubleQuoted 0 None; ESequenceEnd;
+     EDocumentEnd; EStreamEnd].
+Proof.
+  split; [reflexivity|]. split; [reflexivity|]. split; [reflexivity|].
+  split; [exact (proj1 (run_quoted_top false 2 ctx_first ctx_more [32; 10] eq_refl eq_refl))|].
+  split; [exact (proj1 (run_quoted_value [107; 101; 121] false 2 ctx_first ctx_more [32; 10] eq_refl eq_refl eq_refl ltac:(repeat constructor)))|].
+  exact (proj1 (run_quoted_entry false 2 ctx_first ctx_more [32; 10] eq_refl eq_refl ltac:(repeat constructor))).
+Qed.
+(* single-quoted, a doubled quote, a folded CR LF break, no final line break: - 'it''s<CR><LF> so' *)
+Definition ctx_c : brk_layout := {| bl_escaped := false; bl_pad := []; bl_empties := []; bl_indent := [32]; bl_nl := NlCRLF |}.
+Example C04_quoted_document_single_instance :
+  sq_layout_wf 1 [ILit 105; ILit 116; ILit 39; ILit 115] [(ctx_c, [ILit 115; ILit 111])] = true /\
+  45 :: 32 :: q_text true [ILit 105; ILit 116; ILit 39; ILit 115] [(ctx_c, [ILit 115; ILit 111])] []
+  = [45; 32; 39; 105; 116; 39; 39; 115; 13; 10; 32; 115; 111; 39] /\
+  map fst (fst (run_str (45 :: 32 :: q_text true [ILit 105; ILit 116; ILit 39; ILit 115] [(ctx_c, [ILit 115; ILit 111])] [])))
+  = [EStreamStart; EDocumentStart false; ESequenceStart 0 None; EScalar [105; 116; 39; 115; 32; 115; 111] SingleQuoted 0 None;
+     ESequenceEnd; EDocumentEnd; EStreamEnd].
+Proof.
+  split; [reflexivity|]. split; [reflexivity|].
+  exact (proj1 (run_quoted_entry true 1 [ILit 105; ILit 116; ILit 39; ILit 115] [(ctx_c, [ILit 115; ILit 111])] [] eq_refl eq_refl ltac:(repeat constructor))).
+Qed.
+(* ws_only is a real restriction: a comment or a sibling key behind the scalar is outside the class *)
+Example C04_ws_only_excludes : ws_only [32; 35; 99] = false /\ ws_only [10; 98; 58; 32; 49] = false /\ ws_only [32; 10; 10] = true.
+Proof. repeat split. Qed.
